@@ -360,6 +360,24 @@ func c01Run(c *Ctx) {
 			}
 		}
 	}
+	// 6b. wide nodes: the grammar puts no bound on arguments, elements, properties or chain length
+	for _, w := range []int{2, 254, 255, 256, 257, 400, 1000} {
+		xs := make([]string, w)
+		ks := make([]string, w)
+		for i := range xs {
+			xs[i] = fmt.Sprint(i % 7)
+			ks[i] = fmt.Sprintf("k%d: %d", i, i%7)
+		}
+		for _, src := range []string{
+			"f(" + strings.Join(xs, ", ") + ");", "[" + strings.Join(xs, ", ") + "];", "x = {" + strings.Join(ks, ", ") + "};",
+			strings.Join(xs, " + ") + ";", strings.Join(xs, " ** ") + ";", strings.Join(xs, " || ") + ";", "a" + strings.Repeat(".k", w) + ";", "a" + strings.Repeat("[0]", w) + ";", "a" + strings.Repeat("()", w) + ";",
+			strings.Repeat("a = ", w) + "1;", strings.Repeat("- ", w) + "1;",
+		} {
+			if c.Mine() {
+				tj(&Case{Gen: "wide-nodes", Src: src, X: map[string]string{"width": fmt.Sprint(w)}})
+			}
+		}
+	}
 	// 7. every token sequence up to a length bound (tree compared for each accepted one)
 	enumTokenSeqs(c, fullAlphabet(), c.N(3, 4), "tokseq", tj)
 	enumTokenSeqs(c, coreAlphabet(), c.N(5, 6), "coreseq", tj)
@@ -461,6 +479,6 @@ func init() {
 		Assumptions: []string{"the 13-row precedence table in harness/ref/parser.go transcribes the documented ladder (it is cross-checked against the Earley grammar on every accepted text)"},
 		Run:         c01Run,
 		Judge:       c01Judge,
-		MustCount:   func(c *Ctx) []string { return []string{"gen:op-pairs", "gen:op-triples", "gen:prefix-vs-binary", "gen:suffix-chains", "gen:assign-chains", "gen:expr-in-slot", "gen:if-else-nests", "trees_compared", "roundtrips", "print_pairs", "print_pairs_value", "cli_runs"} },
+		MustCount:   func(c *Ctx) []string { return []string{"gen:op-pairs", "gen:op-triples", "gen:prefix-vs-binary", "gen:suffix-chains", "gen:assign-chains", "gen:expr-in-slot", "gen:if-else-nests", "gen:wide-nodes", "trees_compared", "roundtrips", "print_pairs", "print_pairs_value", "cli_runs"} },
 	})
 }
